@@ -14,6 +14,7 @@ never guessed.  Opaque sub-expressions (e.g. ``block[0][0]``, ``len(s1)``, ``s.w
 mapped through a per-item table keyed on the exact ``ast.unparse`` text of the node.
 """
 import ast
+import re
 import os
 import sys
 
@@ -377,6 +378,25 @@ def translate(spec, repo=REPO):
                 buf.append("(* %s :: %s :: assignment #%d to `%s`  =  %s *)" % (
                     item["file"], item["function"], item.get("nth", 0), item["var"], ast.unparse(rhs)))
                 buf.append("Definition %s %s : R :=\n  %s.\n" % (item["name"], params, body))
+            elif item["mode"] == "docR":
+                # a formula as the docstring states it:  "- Label: formula"  (e^(x) = exp x, ^2 = square)
+                doc = ast.get_docstring(fn) or ""
+                ms = re.findall(r"^\s*-\s*%s:\s*(.+?)\s*$" % re.escape(item["label"]), doc, flags=re.M)
+                if len(ms) != 1:
+                    raise TranslateError("docstring line '- %s: ...' found %d times" % (item["label"], len(ms)))
+                txt = ms[0]
+                py = txt.replace("e^(", "np.exp(").replace("^", "**")
+                try:
+                    rhs = ast.parse(py, mode="eval").body
+                except SyntaxError:
+                    raise TranslateError("documented formula %r is not an expression" % txt)
+                body = TrR(item.get("subst", {})).e(rhs)
+                free = sorted(set(n.id for n in ast.walk(rhs) if isinstance(n, ast.Name)) - {"np"})
+                if free != sorted(item["params"]):
+                    raise TranslateError("documented formula %r mentions %s, expected %s" % (txt, free, sorted(item["params"])))
+                params = " ".join("(%s : R)" % p for p in item["params"])
+                buf.append("(* %s :: %s :: docstring  \"- %s: %s\" *)" % (item["file"], item["function"], item["label"], txt))
+                buf.append("Definition %s %s : R :=\n  %s.\n" % (item["name"], params, body))
             elif item["mode"] == "func":
                 tr.has_raise = any(isinstance(n, ast.Raise) for n in ast.walk(fn))
                 pyparams = [a.arg for a in fn.args.args]
@@ -483,6 +503,19 @@ SPEC = [
          var="result", nth=3, name="squash_exponential", params=["X", "r", "x0"]),
     dict(out="Gen_sim.v", mode="exprR", file="src/dtaidistance/similarity.py", function="squash",
          var="result", nth=5, name="squash_logistic", params=["X", "r", "x0"]),
+    # ---- the formulas as DOCUMENTED (docstring lines "- Label: formula")
+    dict(out="Gen_sim.v", mode="docR", file="src/dtaidistance/similarity.py", function="distance_to_similarity",
+         label="Exponential", name="doc_exponential", params=["D", "r"]),
+    dict(out="Gen_sim.v", mode="docR", file="src/dtaidistance/similarity.py", function="distance_to_similarity",
+         label="Gaussian", name="doc_gaussian", params=["D", "r"]),
+    dict(out="Gen_sim.v", mode="docR", file="src/dtaidistance/similarity.py", function="distance_to_similarity",
+         label="Reciprocal", name="doc_reciprocal", params=["D", "r", "a"]),
+    dict(out="Gen_sim.v", mode="docR", file="src/dtaidistance/similarity.py", function="distance_to_similarity",
+         label="Reverse", name="doc_reverse", params=["D", "r"]),
+    dict(out="Gen_sim.v", mode="docR", file="src/dtaidistance/similarity.py", function="squash",
+         label="Gaussian", name="doc_squash_gaussian", params=["X", "r", "x0"]),
+    dict(out="Gen_sim.v", mode="docR", file="src/dtaidistance/similarity.py", function="squash",
+         label="Exponential", name="doc_squash_exponential", params=["X", "r", "x0"]),
 ]
 
 
